@@ -61,6 +61,7 @@ theorem progress_enabled (s : St) (hi : Inv s)
       exact ⟨_, Step.rdvTok s g i k' k b hg hm⟩
     | holding k' => simp [isReg, isHold] at hp hnh; exact absurd hp hnh
     | sendRel k' => simp [isReg, isHold] at hp hnh; exact absurd hp hnh
+    | sendRelSpur k' => simp [isReg] at hp
   | idle =>
     rcases hbusy with hb | ⟨g, pc, hg, hne⟩
     · exact absurd hm hb
@@ -70,6 +71,14 @@ theorem progress_enabled (s : St) (hi : Inv s)
       | needItem k => exact ⟨_, Step.gGetItem s g k hg⟩
       | holding k => exact ⟨_, Step.callUnlock s g k hg⟩
       | sendRel k => exact ⟨_, Step.rdvRel s g k hg hm⟩
+      | sendRelSpur k =>
+        -- a spurious Unlock is delivered if the key is free; otherwise the key has a holder, and the holder can move
+        by_cases hfree : reg s k = 0
+        · exact ⟨_, Step.rdvRelSpur s g k hg hm hfree⟩
+        · have hk := hi.1 k
+          unfold InvK at hk; rw [hm] at hk; unfold InvKF at hk
+          have hh : hold s k = 1 := hk.2.2 (by omega)
+          exact holder_step s hm k (by omega)
       | recvTok i k =>
         -- a waiter with the manager idle: the key has a holder (no lost wake-up), and the holder can move
         have hk := hi.1 k
